@@ -985,6 +985,35 @@ impl Server {
             )),
         };
 
+        // the listen sockets handed over by the main process come first: the initial
+        // state below may activate listeners, which must reuse these sockets instead
+        // of binding new ones next to them
+        info!("will try to receive listeners");
+        server
+            .scm
+            .set_blocking(true)
+            .map_err(|scm_err| ServerError::ScmSocket {
+                msg: "Could not set the scm socket to blocking".to_string(),
+                scm_err,
+            })?;
+        let listeners =
+            server
+                .scm
+                .receive_listeners()
+                .map_err(|scm_err| ServerError::ScmSocket {
+                    msg: "could not receive listeners from the scm socket".to_string(),
+                    scm_err,
+                })?;
+        server
+            .scm
+            .set_blocking(false)
+            .map_err(|scm_err| ServerError::ScmSocket {
+                msg: "Could not set the scm socket to unblocking".to_string(),
+                scm_err,
+            })?;
+        info!("received listeners: {:?}", listeners);
+        server.scm_listeners = Some(listeners);
+
         // initialize the worker with the state we got from a file
         if let Some(state) = initial_state {
             for request in state.requests {
@@ -1023,32 +1052,6 @@ impl Server {
             }
             server.unblock_channel();
         }
-
-        info!("will try to receive listeners");
-        server
-            .scm
-            .set_blocking(true)
-            .map_err(|scm_err| ServerError::ScmSocket {
-                msg: "Could not set the scm socket to blocking".to_string(),
-                scm_err,
-            })?;
-        let listeners =
-            server
-                .scm
-                .receive_listeners()
-                .map_err(|scm_err| ServerError::ScmSocket {
-                    msg: "could not receive listeners from the scm socket".to_string(),
-                    scm_err,
-                })?;
-        server
-            .scm
-            .set_blocking(false)
-            .map_err(|scm_err| ServerError::ScmSocket {
-                msg: "Could not set the scm socket to unblocking".to_string(),
-                scm_err,
-            })?;
-        info!("received listeners: {:?}", listeners);
-        server.scm_listeners = Some(listeners);
 
         Ok(server)
     }
